@@ -211,6 +211,13 @@ def run(ctx):
                     if any(ev[1] == ('ref', tgt) for ev in evs):
                         s_, _r = walk(v)
                         seeds.append((ps_, s_))
+                # `fold((first, first), |(min, max), p| ..)`: the accumulator's initial components are the seeds
+                if lp[2].get('virtual') == 'fold' and lp[2].get('init') is not None:
+                    init = lp[2]['init']
+                    comps = [v for _, v in init[4]] if is_agg(init, 'tuple') else [init]
+                    for c_ in comps:
+                        s_, _r = walk(c_)
+                        seeds.append(('fold-init', s_))
             sels = {'shrink': [], 'grow': []}
             for kind, target, elem, sel in evs:
                 es, _r = walk(elem)
